@@ -20,7 +20,7 @@ theorem C02_matchHere_comp (c : Comp) (prev : Option Char) (rest : Str) (pos : N
   have h3 : ¬ (pos + 1 + 1 + 1 = pos) := by omega
   cases c <;>
     simp [h2, h3, matchHere, Gen.single_aliquot_unpacker_regex, Rx.seqs, Rx.alts, Rx.m, repLoop, compText, Comp.str,
-      Comp.isHalf, Gen.cs19, Gen.cs73, Gen.cs74, Gen.cs75, CharSet.mem, canMore]
+      Comp.isHalf, Gen.cs_93662873, Gen.cs_7fef0bbd, Gen.cs_a29a1d71, Gen.cs_48cdb0ff, CharSet.mem, canMore]
 
 /-- on the empty text the pattern does not match -/
 theorem C02_matchHere_nil (prev : Option Char) (pos : Nat) (adv : Bool) :
